@@ -10,6 +10,7 @@ import CpModel.Negotiate
     cs <ct?> <add> <textonly> <stream> <forced?> <ac?> <name=0|1,…>
     both <ct?> <add> <textonly> <forced?> <ac?> <name=0|1,…> <nchunks> <cached> <ae?> <mimes> <vary?>
     q <text>                                    float(text) as the model reads it
+    fgen <count|N> <reads hex,…>                file_generator / file_generator_limited over the read results
     frame <level> <mtime> <payload hex> <chunks hex,…> <member hex>
     crc <init> <hex>
 -/
@@ -140,6 +141,14 @@ def step (line : String) : String :=
     match untext? t with
     | some t => showQ (parseQ t)
     | none => "bad-op"
+  | ["fgen", count, reads] =>
+    match optNat? count, list? unhex? reads with
+    | some count, some reads =>
+      let out := match count with
+        | none => Gzip.fileGen reads
+        | some c => Gzip.fileGenLimited c reads
+      if out.isEmpty then "_" else ",".intercalate (out.map hex)
+    | _, _ => "bad-op"
   | ["crc", init, data] =>
     match init.toNat?, unhex? data with
     | some init, some data => toString (Gzip.crc32 data (UInt32.ofNat init)).toNat
